@@ -120,7 +120,7 @@ def explore(acc, subj, pname, bs, b):
             if len(hist) == 1 and not acc.samples:
                 acc.sample({"subject": subj.name, "pool": pname, "X": X.tolist(), "batch_size": bs, "loop_history": [{"labels": h[0], "tape": h[1]} for h in hist] + [
                     {"labels": list(lab), "tape": list(tp.choices), "queried": picks}]})
-            fq = F.fp(q2)
+            fq = F.fp_merge(q2)
             for ans in itertools.product((0, 1), repeat=len(picks)):
                 l2 = list(lab)
                 for i, a in zip(picks, ans):
